@@ -237,8 +237,12 @@ def mutate(rng, spec, asg, pool, slots=None, typed_pair=False, fixed=0, near=Fal
         val = rng.choice(opts)
     else:
         opts = [v for v in pool if _ne(v, old)]
+        if near and isinstance(old, (list, tuple, dict, set, frozenset)) and rng.random() < 0.7:
+            pv = perturb(rng, old)
+            if pv is not None:
+                opts = [pv]
         try:
-            if old in TWINS and rng.random() < 0.5:
+            if not near and old in TWINS and rng.random() < 0.5:   # text twins are C10's subject, not C12's
                 opts = [TWINS[old]]
         except TypeError:
             pass
@@ -249,6 +253,25 @@ def mutate(rng, spec, asg, pool, slots=None, typed_pair=False, fixed=0, near=Fal
         val = rng.choice(opts)
     new[where][which] = val
     return new, (where, which)
+
+
+def perturb(rng, obj):
+    """copy of a container with one float somewhere inside nudged by a small or a large amount"""
+    d = rng.choice([1e-4, -1e-4, 0.004, -0.004, 0.04, -0.04, 0.4, 4.0])
+    done = [False]
+
+    def walk(o):
+        if isinstance(o, float) and not done[0]:
+            done[0] = True
+            return o + d
+        if isinstance(o, dict):
+            return dict((k, walk(v)) for k, v in o.items())
+        if isinstance(o, (list, tuple, set, frozenset)):
+            items = sorted(o, key=repr) if isinstance(o, (set, frozenset)) else list(o)
+            return type(o)(walk(v) for v in items)
+        return o
+    new = walk(obj)
+    return new if done[0] else None
 
 
 def _ne(a, b):
@@ -339,7 +362,8 @@ def shallow_oracle(obj, tol):
 ROUND_SCALARS = [1.25, 1.35, 2.5, 0.5, 1.5, -0.5, 1.0049, 1.005, 123.456, 149.9, 150.0, 151.0,
                  0.30000000000000004, 0.3, 1e-09, 0.0, 1.26, 1.24, 2.51, 7, -3, 'abc', 'a', b'xy', None]
 ROUND_NESTED = [[1.26, 'a'], (1.26, [2.51, 3]), {'p': 1.26}, {'p': [1.24, {'q': 2.51}]},
-                [1.24, 'a'], (1.24, [2.49, 3]), {'p': 1.24}, [[1.26]], [[1.24]], (7, 'abc')]
+                [1.24, 'a'], (1.24, [2.49, 3]), {'p': 1.24}, [[1.26]], [[1.24]], (7, 'abc'),
+                (1.26, 'x'), frozenset([0.52, 'x']), (frozenset([1.26, 2]), 'y'), (1.2, (2.4, 'a'))]
 ROUND_HOSTILE = [{'__d__': [[1, 1.26]]}, {'__d__': [[1, 1.24]]}, {'__r__': [0, 3, 1]},
                  {'__s__': [1.26, 2]}, {'__fs__': [1.24, 2]}, {'__d__': [[{'__t__': [1, 2]}, 'v']]}]
 
@@ -355,7 +379,9 @@ def make_deco(case, maxsize=None):
     cls = getattr(mod, case.get('deco', 'inf') + '_cache')
     kw = {'keymap': gen.build_keymap(klepto, case['keymap'])}
     if case.get('ignore'):
-        kw['ignore'] = tuple(case['ignore'])
+        ign = case['ignore']
+        # a single name or index may be given bare (ignore=0, ignore='x'), as the docs allow
+        kw['ignore'] = ign[0] if (case.get('ignore_scalar') and len(ign) == 1) else tuple(ign)
     if case.get('tol') is not None:
         kw['tol'] = case['tol']
         kw['deep'] = bool(case.get('deep'))
@@ -399,6 +425,10 @@ def gen_case(rng, prop):
         # a lone variadic positional: the only shape whose flat key is a bare, unwrapped scalar
         spec = {'req': [], 'def': [], 'var': True, 'kwonly': [], 'kw': False}
         kind = 'func'
+    elif prop == 'C10' and rng.random() < 0.12:
+        # purely variadic: positionals and keywords are kept apart by the sentinel alone
+        spec = {'req': [], 'def': [], 'var': True, 'kwonly': [], 'kw': True}
+        kind = 'func'
     kms = gen.keymap_cfgs(info_preserving=False)
     km = rng.choice(kms)
     kk = gen.key_kind(km)
@@ -415,6 +445,11 @@ def gen_case(rng, prop):
         case['partial'], fixed, pk = gen_partial(rng, spec, [1, 'a', None, (1, 2)])
     if prop == 'C11':
         case['ignore'] = gen_ignore(rng, spec, kind)
+        if rng.random() < 0.25:
+            names = spec_names(spec)
+            if names and kind == 'func':
+                case['ignore'] = [rng.choice([0, names[0], names[-1], len(names) - 1])]
+                case['ignore_scalar'] = True
     if prop == 'C12':
         case['tol'] = rng.choice([None, -2, -1, 0, 1, 3])
         case['deep'] = rng.random() < 0.5
@@ -544,9 +579,11 @@ def _same(a, b):
         return False
 
 
-def behaviour(J, tgt, case, first, second):
+def behaviour(J, tgt, case, first, second, own_deco=False):
     """fresh cache: call `first` then `second`; -> (evaluations of second, result of second)"""
-    c2 = dict(case); c2['deco'] = 'inf'
+    c2 = dict(case)
+    if not own_deco or case.get('deco') == 'no':
+        c2['deco'] = 'inf'
     g = tgt.decorate(make_deco(c2))
     tgt.call_through(g, *first)
     n0 = len(tgt.log)
@@ -615,8 +652,26 @@ def check_equiv(J, tgt, f, kg, c1, c2):
               mech=nonflat_order_mech(tgt, case, c1, c2))
 
 
+def judge_flattening(J, tgt, f, kg, rng, spec, pool):
+    """positionals that spell out the flattened (name, value) form of another call's keywords:
+    f('p', 1, 'q', 2) vs f(p=1, q=2) - a flat key needs its sentinel to keep them apart"""
+    names = rng.sample(['p', 'q', 'zz'], rng.choice([1, 2]))
+    vals = [rng.choice([0, 1, 'a', None, 2.5]) for _ in names]
+    kwcall = ([], dict(zip(names, vals)))
+    flat = []
+    for n, v in sorted(zip(names, vals)):
+        flat += [n, v]
+    poscall = (flat, {})
+    if tgt.kind == 'method' or spec['req'] or spec['def'] or spec['kwonly']:
+        return
+    J.note('c10_flattening_pairs')
+    check_distinct(J, tgt, f, kg, poscall, kwcall, 'flattening', False)
+
+
 def judge_distinct(J, tgt, f, kg, rng, spec, asg, fixed, pool):
     case = J.case
+    if spec['var'] and spec['kw'] and rng.random() < 0.5:
+        judge_flattening(J, tgt, f, kg, rng, spec, pool)
     typed_leg = case['keymap']['typed'] and rng.random() < 0.4
     if typed_leg:
         # arguments that have an ==-equal partner of another type
@@ -872,7 +927,8 @@ def spell_force_positional(spec, asg, defaults, fixed):
 def judge_round(J, tgt, f, kg, rng, spec, asg, fixed):
     case = J.case
     tol, deep = case.get('tol'), bool(case.get('deep'))
-    pool = ROUND_SCALARS + (ROUND_NESTED if gen.key_kind(case['keymap']) not in ('raw', 'int') else [])
+    pool = ROUND_SCALARS + (ROUND_NESTED if gen.key_kind(case['keymap']) not in ('raw', 'int')
+                            else [v for v in ROUND_NESTED if _hashable(v)])
     hostile = [dec(h) for h in ROUND_HOSTILE] if gen.key_kind(case['keymap']) not in ('raw', 'int') else []
     asg1 = assignment(rng, spec, pool + hostile)
     # a partner that differs in one slot by a nearby / far float (or is identical)
@@ -981,6 +1037,16 @@ def judge_round(J, tgt, f, kg, rng, spec, asg, fixed):
         J.note('c12_pairs_expected_split')
     if tol is not None and (want_same != _same(b1, b2)):
         J.nontrivial = True
+    if want_same and tol is not None and not _same(b1, b2):
+        try:
+            n, r = behaviour(J, tgt, case, c1, c2, own_deco=True)
+            J.note('c12_behaviour_checks')
+            if n != 0:
+                J.bad('C12', 'rounds-equal-but-recomputed',
+                      '%s tol=%r deep=%r: after %s the call %s (rounds to the same values) was evaluated again'
+                      % (case['deco'], tol, deep, srepr(c1), srepr(c2)))
+        except TypeError:
+            pass
     for which, (x, y) in (('f.key', (ks1[0], ks2[0])), ('keygen', (ks1[1], ks2[1]))):
         if want_same and not _same(x, y):
             J.bad('C12', 'rounds-equal-but-keys-differ',
@@ -993,6 +1059,14 @@ def judge_round(J, tgt, f, kg, rng, spec, asg, fixed):
                   % (which, tol, deep, srepr(c1), srepr(c2), srepr(x)[:120]),
                   mech=bare_scalar_mech(tgt, case, c1, c2))
             break
+
+
+def _hashable(v):
+    try:
+        hash(v)
+        return True
+    except TypeError:
+        return False
 
 
 def flatten_seen(got):
